@@ -781,6 +781,37 @@ package statedb
 //@   flag dyncall.objectToKeys=pure
 //@   mustcall KeySet.Foreach@1 when @new-keys-inserted new.revision != 0
 //@   mustcall KeySet.Foreach@2 when @old-keys-visited-for-removal old.revision != 0
+// The two passes of reindex (C04, C18): every new key is inserted - under the key itself in a unique
+// index, under the composite key (key, primary key) in a non-unique one - with the NEW object; an old
+// key is deleted - under the same key formation - exactly when the new key set does not hold it.
+//@ func (*partIndexTxn).reindex$1
+//@   property C04 C18 C03
+//@   flag nosafety
+//@   flag assumepre=primary-keys-are-at-most-65535-bytes-escaped
+//@   atcall (*Txn).Insert@1 requires @into-this-index-with-the-new-object $0 == r.tx && $2.revision == new.revision && $2.data == new.data
+//@   atcall (*Txn).Insert@1 requires @unique-under-the-key-itself unique ==> $1 == old(newKey)
+//@   atcall (*Txn).Insert@1 requires @non-unique-under-the-composite-key !unique ==> isComposite($1, old(newKey), idKey)
+//@   mustcall (*Txn).Insert@1 when @every-new-key-is-inserted true
+//@ func (*partIndexTxn).reindex$2
+//@   property C04 C18 C03
+//@   flag nosafety
+//@   flag assumepre=primary-keys-are-at-most-65535-bytes-escaped
+//@   atcall (*Txn).Delete@1 requires @from-this-index-only-keys-the-new-object-lacks $0 == r.tx && !old(inView(newKeys, oldKey))
+//@   atcall (*Txn).Delete@1 requires @unique-under-the-key-itself unique ==> $1 == old(oldKey)
+//@   atcall (*Txn).Delete@1 requires @non-unique-under-the-composite-key !unique ==> isComposite($1, old(oldKey), idKey)
+//@   mustcall (*Txn).Delete@1 when @every-obsolete-key-is-deleted !inView(newKeys, oldKey)
+//@ func (*lpmIndexTxn).reindex$1
+//@   property C04 C13 C03
+//@   flag nosafety
+//@   flag assumepre=index-transaction-is-open
+//@   atcall (*lpmIndexTxn).insertKey@1 requires @every-new-key-with-the-objects-primary-key-and-the-new-object $0 == l && $1 == primaryKey && $2 == key && $3.revision == new.revision && $3.data == new.data
+//@   mustcall (*lpmIndexTxn).insertKey@1 when @every-new-key-is-inserted true
+//@ func (*lpmIndexTxn).reindex$2
+//@   property C04 C13 C03
+//@   flag nosafety
+//@   flag assumepre=index-transaction-is-open
+//@   atcall (*lpmIndexTxn).removeKey@1 requires @only-keys-the-new-object-lacks-under-the-objects-primary-key $0 == l && $1 == primaryKey && $2 == oldKey && !old(inView(newKeys, oldKey))
+//@   mustcall (*lpmIndexTxn).removeKey@1 when @every-obsolete-key-is-removed !inView(newKeys, oldKey)
 //@ func (*lpmIndexTxn).reindex
 //@   property C01 C02 C04 C06 C09
 //@   flag nosafety
